@@ -116,6 +116,8 @@ class Array:
             if not float_values:
                 raise ValueError("Can't calculate an 'auto' scale with an empty Array initializer.")
             max_float_value = max(abs(x) for x in float_values)
+            if math.isinf(max_float_value):
+                raise ValueError("Can't calculate an 'auto' scale with infinite values in the Array initializer.")
             if max_float_value == 0:
                 # This special case isn't covered in the standard. I'm choosing to return no scale.
                 return 1.0
